@@ -119,10 +119,17 @@ def gen_stanza():
     esc = _escape_table(stanza)
 
     body = fn_body(stanza, "xmpp_stanza_to_text")
-    m = re.search(r"length\s*=\s*(\d+)\s*;", body)
+    m = re.search(r"length\s*=\s*(\d+|[A-Za-z_]\w*)\s*;", body)
     if not m:
         raise ExtractError("xmpp_stanza_to_text: initial buffer length not found")
-    first_buf = int(m.group(1))
+    if m.group(1).isdigit():
+        first_buf = int(m.group(1))
+    else:
+        # a named constant: `#define NAME 4096`, `enum { NAME = 4096 }` or `static const … NAME = 4096;`
+        d = re.search(r"(?:#\s*define\s+%s\s+|\b%s\s*=\s*)\(?\s*(\d+)" % (m.group(1), m.group(1)), stanza)
+        if not d:
+            raise ExtractError("xmpp_stanza_to_text: value of %s not found" % m.group(1))
+        first_buf = int(d.group(1))
 
     body = fn_body(stanza, "xmpp_stanza_set_attribute")
     m = re.search(r"hash_new\s*\(\s*stanza->ctx\s*,\s*(\d+)\s*,", body)
